@@ -117,3 +117,31 @@ Example ex3_sound : check_sound ex3_flat = true. Proof. vm_compute. reflexivity.
 Example ex3_inj : check_inj ex3_flat = true. Proof. vm_compute. reflexivity. Qed.
 Example ex3_complete : check_complete ex3_flat = true. Proof. vm_compute. reflexivity. Qed.
 Example ex3_acount : check_accepted_count ex3_flat = true. Proof. vm_compute. reflexivity. Qed.
+
+(** A design of fragment F2 with a second crossing (enforced by rejection):
+    MultiCrossBlock([f0, f1], crossings [[f0], [f1]], mode weight, parallel start)
+    f0 = {a, b} (crossing weight 2), f1 = {x, y, z}: 3 trials = a leftover of the first crossing's round of 4
+    (6 words over {a, b} with each level at most twice) x 3^3 free choices for f1 = 162 keys; the second crossing
+    keeps the 3! arrangements of f1: 6 * 6 = 36. *)
+Open Scope string_scope.
+Definition ex4_flat : flat :=
+{| fl_design := [{| ff_name := "f0"; ff_hidden := false; ff_levels := [{| lv_name := "a"; lv_weight := 1; lv_accepts := [] |}; {| lv_name := "b"; lv_weight := 1; lv_accepts := [] |}]; ff_window := None; ff_complex := false |};
+      {| ff_name := "f1"; ff_hidden := false; ff_levels := [{| lv_name := "x"; lv_weight := 1; lv_accepts := [] |}; {| lv_name := "y"; lv_weight := 1; lv_accepts := [] |}; {| lv_name := "z"; lv_weight := 1; lv_accepts := [] |}]; ff_window := None; ff_complex := false |}];
+   fl_act := [0; 1]; fl_crossings := [[0]; [1]]; fl_sustains := [1; 1]; fl_weights := [2; 1]; fl_sizes := [2; 3];
+   fl_preambles := [0; 0]; fl_alignment := ParallelStart; fl_alignment_preamble := 0; fl_min_trials := 0; fl_trials := 3;
+   fl_rcc := true; fl_exclude := []; fl_excluded_derived := [];
+   fl_constraints := [(FCross);
+      (FConsistency)];
+   fl_errors_fail := false |}.
+Close Scope string_scope.
+
+Example ex4_frag2 : frag2 ex4_flat = true. Proof. vm_compute. reflexivity. Qed.
+Example ex4_frag1 : frag1 ex4_flat = false. Proof. vm_compute. reflexivity. Qed.
+Example ex4_enum : enumerates_b ex4_flat = true. Proof. vm_compute. reflexivity. Qed.
+Example ex4_nkeys : List.length (keys_of ex4_flat) = 162. Proof. vm_compute. reflexivity. Qed.
+Example ex4_nacc : List.length (accepted_keys ex4_flat) = 36. Proof. vm_compute. reflexivity. Qed.
+Example ex4_nvalid : List.length (all_valid (code_sem ex4_flat)) = 36. Proof. vm_compute. reflexivity. Qed.
+Example ex4_sound : check_sound ex4_flat = true. Proof. vm_compute. reflexivity. Qed.
+Example ex4_inj : check_inj ex4_flat = true. Proof. vm_compute. reflexivity. Qed.
+Example ex4_complete : check_complete ex4_flat = true. Proof. vm_compute. reflexivity. Qed.
+Example ex4_acount : check_accepted_count ex4_flat = true. Proof. vm_compute. reflexivity. Qed.
